@@ -42,21 +42,21 @@ UNITS = {
 
 # property -> list of (unit, features)
 PROP_UNITS = {
-    "C01": [("state", ()), ("handle", ()), ("swrite", ()), ("collide", ()), ("ffilter", ()), ("hindex", ()), ("restartnum", ()), ("siblings", ()), ("lh", TF)],
+    "C01": [("state", ()), ("handle", ()), ("swrite", ()), ("collide", ()), ("ffilter", ()), ("hindex", ()), ("restartnum", ()), ("siblings", ()), ("lh", TF), ("flw", ()), ("flw", ('async',))],
     "C02": [("spec", TF), ("logger", TF), ("handle_c", TF), ("handle_d", TF), ("lbuild", ()), ("specbuilder", TF), ("flw", ()), ("primary", ())],
     "C04": [("state", ()), ("handle", ()), ("flw", ()), ("primary", ()), ("dispatch", ("async",)), ("stdw", ("async",)), ("lh", TF), ("lbuild", ()), ("handle_async", ("async",)), ("logger", TF), ("wmode", ()), ("wmode", ("async",)), ("multi", ())],
     "C05": [("handle_a", TF), ("handle_b", TF), ("handle_b2", TF), ("handle_c", TF), ("spec", TF), ("lbuild", ()), ("specparse", TF), ("handle_d", TF)],
     "C06": [("state", ()), ("timestamps", ()), ("builder", ()), ("collide", ()), ("latest", ()), ("ffilter", ()), ("hindex", ()), ("restartnum", ()), ("siblings", ()), ("infix", ()), ("lbuild", ()), ("tsparse", ())],
     "C07": [("state", ()), ("listing", ()), ("cleanup", ()), ("collide", ()), ("builder", ()), ("builder", ("async",)), ("ffilter", ()), ("restartnum", ()), ("siblings", ()), ("infix", ()), ("lbuild", ()), ("cleanupcall", ()), ("tsparse", ())],
-    "C08": [("state", ()), ("builder", ()), ("flw", ()), ("lbuild", ()), ("multi", ())],
+    "C08": [("state", ()), ("builder", ()), ("flw", ()), ("lbuild", ()), ("multi", ()), ("handle", ())],
     "C09": [("state", ()), ("timestamps", ()), ("builder", ()), ("lbuild", ())],
     "C13": [("logger", TF), ("flw", ()), ("multi", ()), ("primary", ()), ("lh", TF), ("lbuild", ()), ("builder", ())],
     "C14": [("state", ()), ("listing", ()), ("naming", ()), ("timestamps", ()), ("cleanup", ()), ("latest", ()), ("infix", ()), ("symlink", ()), ("ffilter", ()), ("siblings", ()), ("tsparse", ())],
-    "C15": [("state", ()), ("handle", ()), ("flw", ()), ("dispatch", ("async",)), ("handle_async", ("async",)), ("swrite", ()), ("stdw", ("async",)), ("lbuild", ()), ("flw", ("async",)), ("primary", ()), ("wmode", ()), ("wmode", ("async",)), ("builder", ())],
+    "C15": [("state", ()), ("handle", ()), ("flw", ()), ("dispatch", ("async",)), ("handle_async", ("async",)), ("swrite", ()), ("stdw", ("async",)), ("lbuild", ()), ("flw", ("async",)), ("primary", ()), ("wmode", ()), ("wmode", ("async",)), ("builder", ()), ("lh", TF)],
     "C16": [("naming", ()), ("listing", ()), ("state", ()), ("builder", ()), ("handle", ()), ("flw", ()), ("multi", ()), ("primary", ()), ("lh", TF), ("symlink", ()), ("ffilter", ()), ("tsformat", ()), ("lbuild", ())],
     "C17": [("specparse", TF)],
     "C18": [("state", ()), ("handle", ()), ("builder", ()), ("lh", TF), ("flw", ()), ("multi", ())],
-    "C19": [("state", ()), ("logger", TF), ("multi", ()), ("timestamps", ()), ("swrite", ()), ("lbuild", ()), ("symlink", ()), ("errchan", ()), ("dispatch", ("async",)), ("stdw", ("async",))],
+    "C19": [("state", ()), ("logger", TF), ("multi", ()), ("timestamps", ()), ("swrite", ()), ("lbuild", ()), ("symlink", ()), ("errchan", ()), ("dispatch", ("async",)), ("stdw", ("async",)), ("handle", ())],
     "C20": [("swrite", ()), ("stdw", ("async",)), ("handle_async", ("async",)), ("dnow", ()), ("lbuild", ()), ("builder", ()), ("flw", ()), ("primary", ()), ("multi", ()), ("logger", TF)],
 }
 
